@@ -38,6 +38,38 @@ func IsICMPError(form string) bool { return isTE(form) || isDU(form) }
 
 // Build constructs the reply of the given form to probe p, sent by from to the probe's source.
 func Build(form string, p *refcodec.Packet, from netip.Addr, c BuildCtx) ([]byte, error) {
+	if inner, ok := strings.CutPrefix(form, "v6mapped:"); ok {
+		// the same direct reply, but carried in an IPv6 datagram between the IPv4-mapped forms (::ffff:a.b.c.d) of the two
+		// addresses: another address family, hence another sender, whatever its payload says
+		if p.V != 4 {
+			return nil, fmt.Errorf("v6mapped: IPv4 probes only")
+		}
+		v4, err := Build(inner, p, from, c)
+		if err != nil {
+			return nil, err
+		}
+		q, err := refcodec.Parse(v4)
+		if err != nil || q.IHL+8 > len(v4) {
+			return nil, fmt.Errorf("v6mapped: cannot re-wrap %s", inner)
+		}
+		l4 := append([]byte{}, v4[q.IHL:]...)
+		src, dst := netip.AddrFrom16(q.Src.As16()), netip.AddrFrom16(q.Dst.As16())
+		proto := q.Proto
+		switch q.Proto {
+		case refcodec.ProtoICMP:
+			if l4[0] != 0 {
+				return nil, fmt.Errorf("v6mapped: only echo replies among the ICMP forms")
+			}
+			proto = refcodec.ProtoICMPv6
+			l4[0] = 129
+			l4[2], l4[3] = 0, 0
+			binary.BigEndian.PutUint16(l4[2:], refcodec.L4Checksum(src, dst, proto, l4))
+		case refcodec.ProtoTCP:
+			l4[16], l4[17] = 0, 0
+			binary.BigEndian.PutUint16(l4[16:], refcodec.L4Checksum(src, dst, proto, l4))
+		}
+		return refcodec.Wrap(src, dst, proto, 60, 0, l4), nil
+	}
 	to := p.Src
 	raw := p.Raw
 	switch {
